@@ -31,6 +31,7 @@ if REPO not in sys.path:
     sys.path.insert(0, REPO)
 
 TRUSTED = [
+    'tools/cyexec.py (Cython-subset source executor, validated by its --selftest and by bit-identical agreement with the binaries on the unchanged tree): the source reading of the hand-written .pyx/.pxi files',
     'Lean 4.33 kernel; axioms of the audited theorems within {propext, Classical.choice, Quot.sound}',
     'Mathlib v4.33 (ring, field_simp, linear_combination; Real.sin/cos lemmas for atEnds_sound / trigParam_sound)',
     'translator tools/translate/conecyl_ir.py + gen_conecyl.py (validated each run: interpreted IR vs running binaries, V)',
